@@ -400,8 +400,15 @@ def run(ctx, rule="C10.R5"):
             ok = ok and r[2] == ("sub", data, ("slice", e, N.mk_add(e, N.const(8)), N.NONE))
     ctx.ob(rule, fi, ok, "swapbytesinbits emits the 8-bit groups in reverse order, each group's bits in their original order", key="swapbytesinbits")
     bad = [p for p in paths if p.outcome[0] == "raise"]
-    ctx.ob(rule, fi, bool(bad) and all(p.outcome[1].get("cls") == "ValueError" and any(c[0] == "cmp" and c[1] == "!=" and c[2] == ("mod", lend, N.const(8)) for c in conj(p)) for p in bad),
+    ctx.ob(rule, fi, bool(bad) and all(p.outcome[1].get("cls") == "ValueError" and any(c[0] == "cmp" and c[1] == "!=" and c[2] == ("mod", lend, N.const(8)) and c[3] == N.const(0) for c in conj(p)) for p in bad),
            "swapbytesinbits rejects lengths that are not a multiple of 8", key="swapbytesinbits length")
+    fi = M.function("bits2bytes")
+    paths = paths_of(ctx, fi)
+    bad = [p for p in paths if p.outcome[0] == "raise"]
+    good = [p for p in paths if p.returns]
+    mod8 = ("mod", lend, N.const(8))
+    ctx.ob(rule, fi, bool(bad) and all(N.mk_cmp("!=", mod8, N.const(0)) in conj(p) and p.outcome[1].get("cls") == "ValueError" for p in bad) and
+           bool(good) and all(N.mk_cmp("==", mod8, N.const(0)) in conj(p) for p in good), "bits2bytes rejects exactly the lengths that are not a multiple of 8", key="bits2bytes length")
     fi = M.function("swapbitsinbytes")
     paths = paths_of(ctx, fi)
     r = N.canon_lids(paths[0].retval) if len(paths) == 1 and paths[0].retval else None
